@@ -736,6 +736,8 @@ def flex_layout(context, box, bottom_space, skip_stack, containing_block, page_i
                 (child.margin_top, child.margin_bottom) if cross == 'height'
                 else (child.margin_left, child.margin_right))
             auto_margins = sum([margin == 'auto' for margin in cross_margins])
+            position = 'position_y' if cross == 'height' else 'position_x'
+            setattr(child, position, position_cross)
             # If a flex item has auto cross-axis margins…
             if auto_margins:
                 extra_cross = line.cross_size
@@ -781,8 +783,6 @@ def flex_layout(context, box, bottom_space, skip_stack, containing_block, page_i
                     align_self = ('stretch',)
                 elif 'auto' in align_self:
                     align_self = align_items
-                position = 'position_y' if cross == 'height' else 'position_x'
-                setattr(child, position, position_cross)
                 if {'end', 'self-end', 'flex-end'} & set(align_self):
                     if cross == 'height':
                         child.position_y += line.cross_size - child.margin_height()
